@@ -159,6 +159,13 @@ def run_case(case):
                             "crop_corner on" % (tuple(k), r[tuple(k)]), wit, mech="corner")
     # reproducibility (depends only on arguments and seed), under another prior state
     np.random.seed((case["prior"] + 12345) % (1 << 30))
+    # an intervening call with other arguments: nothing may be remembered between calls
+    try:
+        _CALLS[0] = 0
+        mr.poisson((max(16, nx - 3), max(16, ny - 5)), 2.0 + (case["seed"] % 3),
+                   calib=(cx, cy), seed=case["seed"] + 1, tol=0.5)
+    except (ValueError, PoissonAbort):
+        pass
     _CALLS[0] = 0
     try:
         mask2 = mr.poisson((ny, nx), accel, **kw)
